@@ -306,8 +306,9 @@ class TokWorld:
 
 # ------------------------------------------------------------------ generation
 
-def gen_piece(rng, ntracks, values, pitch_range, nbars=None):
-    nbars = nbars or rng.choice([1, 2, 2, 3, 3, 3, 4, 4, 5, 6])
+def gen_piece(rng, ntracks, values, pitch_range, nbars=None, tier="quick"):
+    nbars = nbars or (rng.choice([1, 2, 2, 3, 3, 3, 4, 4, 5, 6]) if tier == "quick" else
+                      rng.choice([1, 2, 3, 3, 4, 4, 5, 6, 7, 8, 10]))
     # a small palette per piece, so that a signature is left and *returned to* (A -> B -> A) often
     palette = rng.sample(SIGS[:12], rng.choice([2, 2, 3])) if rng.random() < 0.75 else list(SIGS)
     sig = rng.choice(palette)
@@ -380,10 +381,10 @@ def tok_run_one(seed, tier, index):
     rng = random.Random(seed)
     cfg = gen_cfg(rng)
     lane = "baseline" if rng.random() < 0.15 else "fault"
-    nclients = 1 if (lane == "baseline" or rng.random() < 0.5) else rng.choice([2, 2, 3])
+    nclients = 1 if (lane == "baseline" or rng.random() < 0.5) else rng.choice([2, 2, 3] if tier == "quick" else [2, 3, 4])
     clients = []
     for _ in range(nclients):
-        piece = gen_piece(rng, cfg["ntracks"], cfg["note_values"], cfg["pitch_range"])
+        piece = gen_piece(rng, cfg["ntracks"], cfg["note_values"], cfg["pitch_range"], tier=tier)
         clients.append({"piece": piece, "route": rng.choice(["R1", "R2", "R3", "R3"]), "cuts": gen_cuts(rng, piece)})
     init = {"cfg": cfg, "clients": clients}
     world = TokWorld(init)
